@@ -144,7 +144,7 @@ CHECKS = {
         'pkgs': ['./zzverif/hidx', './rpc/backend', './server'],
         'harnesses': [
             {'fn': P + 'zzverif/hidx.H_C14_1_IndexKernel', 'must_reach': ['some-eth-tx-indexed']},
-            {'fn': P + 'server.H_C14_3_ServiceRestart', 'over': {'max-decisions': 6000, 'max-paths': 100000}, 'must_reach': ['compared', 'restart-with-non-empty-index']},
+            {'fn': P + 'server.H_C14_3_ServiceRestart', 'timing': True, 'over': {'max-decisions': 6000, 'max-paths': 100000}, 'must_reach': ['compared', 'restart-with-non-empty-index']},
             {'fn': P + 'rpc/backend.H_C14_2_ReceiptView', 'over': {'max-paths': 100000}, 'must_reach': ['views-compared', 'synthetic-receipt-of-discarded-tx', 'synthetic-receipt-after-earlier-eth-tx-and-non-eth-tx']},
         ],
         'level_text': 'Bounded exhaustive symbolic execution of the real indexer kernel (KVIndexer.IndexBlock, GetByTxHash, GetByBlockAndIndex, LastIndexedBlock, TxHashKey/TxIndexKey, rpctypes.ParseTxResult, TxWasDroppedPreAnteHandleDueToBlockGasExcess, IsEthereumTx) over a block of 1-3 transactions of 6 kinds with the events the application emits, optionally followed by a later block: every Ethereum transaction that reached the ante handler is found by hash and by (height, index), both lookups agree, indices follow block order over exactly those transactions, block position and failed flag are right, nothing else is indexed, unknown hash / out-of-range index are errors, re-indexing a block (also after a later one) leaves the database byte-for-byte unchanged.',
